@@ -363,6 +363,33 @@ func main() {
 			t.Outcome("delivered-as-model")
 		})
 
+		// With the text check switched on, every stream whose control frames carry payloads that
+		// are not UTF-8 (they are opaque application data): the check is about text messages only,
+		// so everything is delivered as the model says - also by a loop that takes single-frame
+		// messages with exact-size reads and so never "finishes" an empty one.
+		r.Part("E9-text-check-on-and-control-payloads-that-are-not-text", func(t *explore.T) {
+			all := collect(t.Pick(3, 4), []streams.Ctl{{Op: 9, Payload: []byte{0xff, 0xfe}}, {Op: 10, Payload: []byte{0x80}}})
+			t.Par(len(all), func(i int) {
+				st := all[i]
+				data, _ := streams.Wire(st.frames)
+				for _, d := range ds {
+					for _, ch := range []int{0, 1} {
+						d, ch := d, ch
+						t.Do(func() string {
+							return fmt.Sprintf("%s %s driver=%s chunk=%d CheckUTF8=on", st.side, streams.Describe(st.frames), d.Name, ch)
+						}, func() *explore.Fail {
+							src := env.NewSrc(data)
+							src.Policy = env.FixedChunk(ch)
+							var res drivers.Result
+							d.Run(src, st.side, drivers.Cfg{CheckUTF8: true}, &res)
+							return judge(d, st, &res, src)
+						})
+					}
+				}
+			})
+			t.Outcome("delivered-as-model")
+		})
+
 		// "Any number of fragments (including empty ones), control frames interleaved anywhere": a
 		// message whose first and last fragment are separated by a long run of frames that carry no
 		// message bytes - empty continuations, pings, pongs, or a mix - through every driver.
